@@ -515,4 +515,87 @@ PropDebug(c, e) ==
   /\ DbgCallsOK(c, e.a, e.pcalls)
   /\ ~HasDebugParams(c) => (e.out = e.dout /\ e.pretty = e.dpretty)
 
+
+\* ======================================================================
+\* Default (C08)
+\* ======================================================================
+\* Field sources (f.dflt): "none" = the field type's Default::default();
+\* a literal kind "int" "str" "bool" "char" "float" = `#[educe(Default = lit)]`
+\* (or expression = lit / expr(lit)); "expr" = a non-literal expression.
+\* Field type classes (f.ty): "P" = probe type (not the natural type of any
+\* literal, so literals reach it through Into), "nat" = the literal's natural
+\* type (no conversion; plain i32 when there is no literal).
+\* A result field is observed as <<origin, tag, value, generation>>.
+GDefault == 4     \* produced by the field type's Default::default()
+GFrom == 5        \* produced by From<literal> (i.e. through Into::into)
+GExpr == 6        \* produced by evaluating the user's expression
+TypeExprVal == 66 \* every field of the value built by a type-level expression
+
+LitKinds == {"int", "str", "bool", "char", "float"}
+\* the abstract value the rendered literal / expression of field i denotes
+LitVal(kind, i) ==
+  CASE kind = "bool" -> 1
+    [] kind = "char" -> i
+    [] OTHER -> 10 + i
+
+DefaultFieldPlan(f, i) ==
+  IF f.ty = "nat"
+  THEN IF f.dflt = "none" THEN <<"nat", 0, 0, 0>> ELSE <<"nat", 0, LitVal(f.dflt, i), 0>>
+  ELSE CASE f.dflt = "none" -> <<"new", i, 7, GDefault>>
+         [] f.dflt = "expr" -> <<"new", 0, LitVal("expr", i), GExpr>>
+         [] OTHER -> <<"new", 0, LitVal(f.dflt, i), GFrom>>
+
+\* the designated variant (for a union: `variant` 1 and the designated field)
+MarkedVariants(c) == { v \in 1..NVariants(c) : c.variants[v].dflt }
+DefaultVariant(c) ==
+  IF c.kind # "enum" \/ NVariants(c) = 1 THEN 1
+  ELSE CHOOSE v \in MarkedVariants(c) : TRUE
+
+UnionMarked(c) == { i \in FieldIdx(c, 1) : c.variants[1].fields[i].dflt # "none" \/ c.variants[1].fields[i].deref }
+\* (for union fields the bare #[educe(Default)] flag is carried in f.deref to
+\* keep the universal field record small)
+UnionDefaultField(c) ==
+  IF NFields(c, 1) = 1 THEN 1 ELSE CHOOSE i \in UnionMarked(c) : TRUE
+
+\* what T::default() must be, as a fingerprint <<variant, <<fields>>>>
+DefaultPlan(c) ==
+  IF c.opts.dexpr
+  THEN IF c.kind = "union" THEN <<1, << <<"new", 0, TypeExprVal, GExpr>> >> >>
+       ELSE LET v == NVariants(c) IN
+         <<v, [i \in FieldIdx(c, v) |-> <<"new", 0, TypeExprVal, GExpr>>]>>
+  ELSE IF c.kind = "union"
+  THEN LET i == UnionDefaultField(c) IN <<1, <<DefaultFieldPlan(c.variants[1].fields[i], i)>>>>
+  ELSE LET v == DefaultVariant(c) IN
+         <<v, [i \in FieldIdx(c, v) |-> DefaultFieldPlan(c.variants[v].fields[i], i)]>>
+
+\* designation must be unambiguous, and attributes may only sit where they are
+\* used (everything else is refused, C13)
+DefaultWellDesignated(c) ==
+  IF c.opts.dexpr
+  THEN /\ MarkedVariants(c) = {}
+       /\ \A v \in 1..NVariants(c) : \A i \in FieldIdx(c, v) :
+             c.variants[v].fields[i].dflt = "none" /\ ~c.variants[v].fields[i].deref
+       /\ NVariants(c) >= 1
+  ELSE IF c.kind = "union"
+  THEN NFields(c, 1) = 1 \/ Cardinality(UnionMarked(c)) = 1
+  ELSE IF c.kind = "enum"
+  THEN /\ NVariants(c) >= 1
+       /\ (NVariants(c) > 1 => Cardinality(MarkedVariants(c)) = 1)
+       /\ \A v \in 1..NVariants(c) : v # DefaultVariant(c) =>
+             \A i \in FieldIdx(c, v) : c.variants[v].fields[i].dflt = "none"
+  ELSE TRUE
+
+\* conversions logged: exactly the probe-typed fields of the designated variant
+\* that carry a literal
+DefaultFromCalls(c) ==
+  IF c.opts.dexpr THEN {}
+  ELSE LET v == IF c.kind = "union" THEN 1 ELSE DefaultVariant(c)
+           fs == IF c.kind = "union" THEN {UnionDefaultField(c)} ELSE FieldIdx(c, v)
+       IN { i \in fs : c.variants[v].fields[i].ty = "P" /\ c.variants[v].fields[i].dflt \in LitKinds }
+
+PropDefault(c, e) ==
+  /\ e.res = DefaultPlan(c)
+  /\ e.froms = Cardinality(DefaultFromCalls(c))
+  /\ c.opts.newfn => e.newres = e.res
+
 =============================================================================
